@@ -576,11 +576,20 @@ def rule_formatter(rep: Report, rid="C18.fmt") -> None:
     found = fmt(got, I4)[:400] if got and got[0] != "cat" else [fmt(p_, I4)[:80] for p_ in got[1]]
     if got[0] == "cat" and len(got[1]) == 12:
         P_ = got[1]
+        def text_of(t, mapping):
+            """the string a piece spells once the optional fields it reads are given values (None, empty, some text)"""
+            r = nf.simplify(I4, t, mapping)
+            if isinstance(r, tuple) and r and r[0] == "cat":
+                parts_ = [text_of(x, mapping) for x in r[1]]
+                return "".join(parts_) if all(isinstance(x, str) for x in parts_) else None
+            return r[1] if is_const(r) and isinstance(r[1], str) else None
+        vals = (None, "", "K", "Given ")
+        # optional fields are strings or None: decided by those values, whichever way "missing" is tested
+        oktxt = all(text_of(P_[9], {txt: const(v)}) == (v or "") for v in vals)
+        okkw = all(text_of(P_[7], {kwd: const(k), kwt: const(t_)}) == (("(" + (t_ or "") + ")" + k) if k else "") for k in vals for t_ in vals)
         fixed = P_[0] == const("(") and P_[1] == ("call", "str", (("item", loc, const("line")),), ()) and P_[2] == const(":") \
             and P_[3] == ("call", "str", (("item", loc, const("column")),), ()) and P_[4] == const(")") and P_[5] == mtype and P_[6] == const(":") \
-            and P_[8] == const("/") and P_[9] == ("cond", txt, txt, const("")) and P_[10] == const("/")
-        want_kw = ("cond", kwd, ("cat", (const("("), ("cond", kwt, kwt, const("")), const(")"), kwd)), const(""))
-        okkw = P_[7] == want_kw
+            and P_[8] == const("/") and oktxt and P_[10] == const("/")
         okitems = False
         it = P_[11]
         if it[0] == "join" and it[1] == "," and len(it[2]) == 1 and it[2][0][0] == "loop":
